@@ -212,13 +212,15 @@ def check(case):
                                                            resid[:4].tolist(), [d[:4].tolist() for d in own], ctx))
             # what the assignment was handed: the final parent columns, ascending, one per parent
             if case["assign"][i]["kind"] not in ("none", "null"):
-                for bl in blocks[i]:
-                    if bl.shape != (n, len(pa[i])):
-                        raise Violation("block_shape", "assignment of variable %d received a block of shape %r, expected (%d, %d); %s"
-                                        % (i, bl.shape, n, len(pa[i]), ctx))
-                    if not _close(bl, block):
-                        raise Violation("block_not_parents", "assignment of variable %d did not receive the sampled values of its parents %s "
-                                        "in increasing order; %s" % (i, pa[i], ctx))
+                # an implementation may call an assignment more than once (e.g. to probe its output shape):
+                # at least one of the blocks it was handed must be the final parent columns
+                if blocks[i] and not any(bl.shape == (n, len(pa[i])) and _close(bl, block) for bl in blocks[i]):
+                    shapes = sorted({bl.shape for bl in blocks[i]})
+                    if all(bl.shape != (n, len(pa[i])) for bl in blocks[i]):
+                        raise Violation("block_shape", "assignment of variable %d received blocks of shape %s, expected (%d, %d); %s"
+                                        % (i, shapes, n, len(pa[i]), ctx))
+                    raise Violation("block_not_parents", "assignment of variable %d did not receive the sampled values of its parents %s "
+                                    "in increasing order; %s" % (i, pa[i], ctx))
         # callables must not be corrupted by the call (table noise hands out a view of its own buffer)
         for i in range(p):
             r = mnoise[i]
